@@ -166,14 +166,18 @@ fn mutate_xml(rng: &mut Rng, xml: &str) -> String {
             format!("{}{}{}", &xml[..s], *rng.pick(&NUMS), &xml[e..])
         }
         3 => {
-            // change a type attribute
+            // change a type attribute — or remove it, or rename it (an element without a `type` attribute)
             let spots: Vec<usize> = xml.match_indices("type=\"").map(|m| m.0 + 6).collect();
             if spots.is_empty() {
                 return xml.to_string();
             }
             let s = *rng.pick(&spots);
             let e = s + xml[s..].find('"').unwrap_or(0);
-            format!("{}{}{}", &xml[..s], *rng.pick(&TYPES), &xml[e..])
+            match rng.below(4) {
+                0 if s >= 7 && e + 1 <= xml.len() => format!("{}{}", &xml[..s - 7], &xml[e + 1..]),
+                1 if s >= 6 => format!("{}kind=\"{}", &xml[..s - 6], &xml[s..]),
+                _ => format!("{}{}{}", &xml[..s], *rng.pick(&TYPES), &xml[e..]),
+            }
         }
         4 => {
             // delete one line (an element or a tag)
